@@ -9,6 +9,8 @@ read back and compared.
 """
 from __future__ import annotations
 
+import itertools
+
 import math
 import os
 import shutil
@@ -64,7 +66,66 @@ def drive(tier):
 
     shards = [("sib", s, a) for s in START for a in list(mgraph.ops("structural")) + list(mgraph.ops("other"))]
     results.extend(core.pmap(mod.__name__, shards, tier))
+    # dependent-variable round: every injective assignment of DVID values to 2 (thorough: up to 3) dependent variables
+    vals = (1, 2, 3, 5)
+    maps = [t for k in ((2,) if tier == "quick" else (2, 3)) for t in itertools.permutations(vals, k)]
+    results.extend(core.pmap(mod.__name__, [("dvs", maps[i::4]) for i in range(4)], tier))
     return results
+
+
+def run_dvs_shard(shard, tier):
+    """pheno with k dependent variables Y, Y2 = 2 F + EPS, Y3 = 3 F + EPS on the DVID values of the shard's tuples: the written
+    $ERROR block, executed by the reference interpreter on a record with DVID = d, must leave in Y the value of the dependent
+    variable the model assigns to d."""
+    from pharmpy.basic import Expr
+    from pharmpy.model import Assignment
+    from vlib import mgraph, nmcode
+
+    res = {"states": 0, "transitions": 0, "evaluations": 0, "distinct_nontrivial": 0, "violations": [], "samples": [],
+           "outcomes": {}, "traces_validated_against_impl": 0}
+    m0 = mgraph.start_models()["pheno"]
+    y = list(m0.dependent_variables)[0]
+    eps = m0.random_variables.epsilons.names[0]
+    fval, eval_ = 2.0, 0.5
+    for t in shard[1]:
+        res["states"] += 1
+        stats = m0.statements
+        dvmap = {y: t[0]}
+        for j, d in enumerate(t[1:], start=2):
+            stats = stats + Assignment.create(Expr.symbol(f"Y{j}"), Expr.symbol("F") * j + Expr.symbol(eps))
+            dvmap[Expr.symbol(f"Y{j}")] = d
+        df = m0.dataset.copy()
+        df["DVID"] = [t[i % len(t)] for i in range(len(df))]
+        hist = f"pheno with dependent variables {{{', '.join(f'{k}: {v}' for k, v in dvmap.items())}}}"
+        try:
+            m = m0.replace(statements=stats, dependent_variables=dvmap, dataset=df).update_source()
+            code = m.code
+            blk = code.split("$ERROR", 1)[1]
+            blk = blk[:blk.index("\n$")]
+            prog = nmcode.parse_code(blk)
+        except Exception as e:
+            res["violations"].append({"history": ["pheno", [f"dvs{t}"]], "dvs": list(t), "what": f"[{hist}] the model cannot be written or its $ERROR block read: {type(e).__name__}: {str(e)[:100]}", "class": "dvs:write"})
+            continue
+        res["traces_validated_against_impl"] += 1
+        res["distinct_nontrivial"] += 1
+        want = {t[0]: fval + fval * eval_}
+        for j, d in enumerate(t[1:], start=2):
+            want[d] = j * fval + eval_
+        for d, w in want.items():
+            res["evaluations"] += 1
+            env = nmcode.Env(vals={"F": fval, "DVID": float(d)}, vec={"EPS": {1: eval_}})
+            try:
+                nmcode.execute(prog, env)
+                got = env.vals.get("Y")
+            except Exception as e:
+                got = f"{type(e).__name__}: {e}"
+            if not (isinstance(got, float) and abs(got - w) <= 1e-9):
+                res["violations"].append({"history": ["pheno", [f"dvs{t}"]], "dvs": list(t),
+                                          "what": f"[{hist}] evaluation: on a record with DVID {d} the generated code gives Y = {got}, the model's dependent variable for {d} has the value {w}",
+                                          "class": "dvs:evaluation"})
+                break
+        res["outcomes"]["dvs:checked"] = res["outcomes"].get("dvs:checked", 0) + 1
+    return res
 
 
 def run_sibling_shard(shard, tier):
@@ -140,6 +201,8 @@ def run_shard(shard, tier):
 
     if shard[0] == "sib":
         return run_sibling_shard(shard, tier)
+    if shard[0] == "dvs":
+        return run_dvs_shard(shard, tier)
     return seqx.run_level_shard(sys.modules[__name__], shard, tier, depth_limit=2 if tier == "quick" else 3)
 
 
@@ -430,6 +493,9 @@ def replay(w):
     from vlib import mgraph
 
     start, labels = w["history"]
+    if w.get("dvs"):
+        r = run_dvs_shard(("dvs", [tuple(w["dvs"])]), "quick")
+        return [v["what"].split("] ", 1)[-1] for v in r["violations"]]
     if w.get("sibling"):
         a, b = labels
         m0 = mgraph.start_models()[start]
